@@ -61,7 +61,24 @@ func c12body(seq []int, sm bool, writeFails bool, reset bool, mode string) func(
 		if mode == "cut-on-tick" {
 			ka = 7
 		}
-		s := newSess(sessOpts{sm: sm, smResume: sm, keepalive: ka, noCatchAll: mode == "handler-waits"})
+		so := sessOpts{sm: sm, smResume: sm, keepalive: ka, noCatchAll: mode == "handler-waits"}
+		if mode == "resumed-after-failed-attempt" {
+			// the connection under test is the third one: the first was lost, the second attempt was cut by the
+			// server in the middle of the negotiation (the client gives that attempt up and closes it itself), the
+			// third succeeded through Resume()
+			so.serverCfg = func(k int, c *negCfg) {
+				if k == 1 {
+					inner := c.pick
+					c.pick = func(step string, alts ...string) string {
+						if step == "auth" {
+							return "close"
+						}
+						return inner(step, alts...)
+					}
+				}
+			}
+		}
+		s := newSess(so)
 		if s.cl == nil {
 			return
 		}
@@ -119,6 +136,21 @@ func c12body(seq []int, sm bool, writeFails bool, reset bool, mode string) func(
 		}
 		vrt.WaitIdle()
 		connIdx := 0
+		if mode == "resumed-after-failed-attempt" {
+			s.conn(0).close()
+			vrt.WaitIdle()
+			if err := s.cl.Resume(); err == nil {
+				vrt.Fail("C12|harness|attempt-did-not-fail", "the attempt cut by the server at the auth step did not fail")
+				return
+			}
+			vrt.WaitIdle()
+			if err := s.cl.Resume(); err != nil {
+				vrt.Fail("C12|harness|reconnect", "%v", err)
+				return
+			}
+			vrt.WaitIdle()
+			connIdx = 2
+		}
 		if mode == "reconnected-from-handler" {
 			s.conn(0).close()
 			vrt.WaitIdle()
@@ -312,7 +344,7 @@ func TestVerifC12(t *testing.T) {
 				if !wf && len(q) <= 2 {
 					scs = append(scs, hx.Scenario{Name: fmt.Sprintf("seq=%s/sm=%v/mode=cut-on-tick", strings.Join(n, ","), sm),
 						Opt: vrt.Options{Bound: 1, Horizon: 100000}, Body: c12body(q, sm, false, false, "cut-on-tick"), Verdict: c12verdict})
-					for _, mode := range []string{"handler-waits", "second-connection", "second-connection-after-parse-error", "reconnected-from-handler", "eof-with-data", "logger-eof-with-data"} {
+					for _, mode := range []string{"handler-waits", "second-connection", "second-connection-after-parse-error", "reconnected-from-handler", "resumed-after-failed-attempt", "eof-with-data", "logger-eof-with-data"} {
 						scs = append(scs, hx.Scenario{Name: fmt.Sprintf("seq=%s/sm=%v/mode=%s", strings.Join(n, ","), sm, mode),
 							Opt: vrt.Options{Bound: bound, Horizon: 100000}, Body: c12body(q, sm, false, false, mode), Verdict: c12verdict})
 					}
